@@ -162,3 +162,9 @@ class Commands:
             return cmd_type.parse(buf, params)
         except NotParseable as exc:
             return InvalidCommand(params, exc, command, cmd_type), buf[0:0]
+        except (ValueError, RecursionError) as exc:
+            # arguments that cannot be decoded, numbers too long to convert
+            # or nested too deeply are invalid arguments, not server errors
+            invalid = NotParseable(buf)
+            invalid.__cause__ = exc
+            return InvalidCommand(params, invalid, command, cmd_type), buf[0:0]
